@@ -205,6 +205,8 @@ func conv(v any) any {
 			return []int{}
 		}
 		return x
+	case map[string]int, map[string]string, map[string][]string, map[string]any, map[string]bool:
+		return x
 	case [][]byte:
 		// frames of one Socket.IO packet: the header frame identifies it
 		if len(x) == 0 {
